@@ -59,7 +59,10 @@ func (d *dependencyAwarePostProcessors) PostProcessProperties(properties []*comp
 		//aware by name
 		if prop.TagVal != "" && (prop.Type.Kind() == reflect.Ptr || prop.Type.Kind() == reflect.Interface) {
 			dm := d.Registry.GetMetaByName(prop.TagVal)
-			prop.Injects = append(prop.Injects, dm)
+			//a missing component, or one that cannot be assigned to the field, counts as not found
+			if dm != nil && dm.Type.AssignableTo(prop.Type) {
+				prop.Injects = append(prop.Injects, dm)
+			}
 		}
 	}
 	return nil, nil
